@@ -386,7 +386,7 @@ func classify(c Case) (bool, []string) {
 }
 
 func TestArcs(t *testing.T) {
-	harness.Rapid(t, harness.N(60000, 16*200000), func(t *rapid.T) {
+	harness.Rapid(t, harness.N(60000, 16*600000), func(t *rapid.T) {
 		var c Case
 		switch rapid.IntRange(0, 9).Draw(t, "engine") {
 		case 0:
